@@ -1,6 +1,7 @@
 import Bmc.Lemmas.SessionProps
 import Bmc.Lemmas.SessionlessSpec
 import Bmc.Lemmas.ResponseAccepted
+import Bmc.Lemmas.HandshakeLoss
 /-! # C10 — retries re-send the same well-formed request until a final answer arrives (property theorems only)
 
 `expected` / `slExpected` are the documented contract as a fold over the per-attempt outcomes: the first reply that
@@ -96,6 +97,20 @@ theorem busy_then_final (C : Ops) (hC : C.Lawful) (c : Cmd) (hf : c.reqFails = f
   have hspec := sendLoop_spec C c hf s hs ivs _ (by simp; omega : (busy.map (BmcAnswer.datagram C s.keys c) ++ fin.datagram C s.keys c :: rest).length ≤ ivs.length)
   rw [hexp] at hspec
   exact Prod.ext hspec.2.1 hspec.1
+
+/-- HANDSHAKE PAYLOADS: while replies are lost or do not decode down to a session wrapper the library re-sends the SAME
+    setup datagram (Open Session Request, RAKP 1, RAKP 3 alike), once per such outcome, and carries on with the first
+    reply that does: the result is that of the loss-free exchange, and what is transmitted is the loss-free run's three
+    datagrams, each repeated — for every credential set, suite and any replies `r1 r2 r3` that end their exchanges -/
+theorem handshake_payload_retries (C : Ops) (o : Opts) (rm : Bytes) (j1 j2 j3 : List Outcome) (r1 r2 r3 : Bytes) (tail : List Outcome)
+    (h1 : ∀ x ∈ j1, Skipped x) (h2 : ∀ x ∈ j2, Skipped x) (h3 : ∀ x ∈ j3, Skipped x) (e1 : Ends r1) (e2 : Ends r2) (e3 : Ends r3) :
+    (newSession C o rm (j1 ++ .reply r1 :: (j2 ++ .reply r2 :: (j3 ++ .reply r3 :: tail)))).2 =
+      (newSession C o rm [.reply r1, .reply r2, .reply r3]).2 ∧
+    ∀ d1 d2 d3, (newSession C o rm [.reply r1, .reply r2, .reply r3]).1 = [d1, d2, d3] →
+      (newSession C o rm (j1 ++ .reply r1 :: (j2 ++ .reply r2 :: (j3 ++ .reply r3 :: tail)))).1 =
+        List.replicate (j1.length + 1) d1 ++ List.replicate (j2.length + 1) d2 ++ List.replicate (j3.length + 1) d3 :=
+  ⟨newSession_skips C o rm j1 j2 j3 r1 r2 r3 tail h1 h2 h3 e1 e2 e3,
+   fun d1 d2 d3 hb => newSession_retransmits C o rm j1 j2 j3 r1 r2 r3 tail h1 h2 h3 e1 e2 e3 d1 d2 d3 hb⟩
 
 example : expected (fun d => if d = [1] then Class.final 0 [9] else .retry) [.reply [2], .reply [1], .lost] = (2, .ok 0 [9]) := by
   decide
